@@ -9,6 +9,11 @@ claimed = {
          "Every operation history over the boundary alphabet (seeks, skips, fixed-size, bulk and io.Reader-style reads) is explored breadth-first on the real Parser for 11 input lengths x 4 underlying-reader behaviours, merging states on a reflective dump of all Parser fields; closure is reached for the small inputs, a reported depth otherwise. Each step is compared with a plain slice model (value, position, failure iff past the end).",
          "Alphabet of offsets/sizes is the boundary set of the 1024-byte buffer; readers obey the io.Reader contract; input bytes fixed per length.",
          "DESIGN.md 4/C17"),
+ "C18": ("fault_enumeration",
+         "exhaustive fault-point enumeration: every byte offset x every fault mode on the real write/read paths",
+         "For every corpus font (glyf, glyf with a raw table physically last, CFF, CID-keyed; Go Regular in the thorough tier) and every k in 0..len(file): writers that accept k bytes then reject or short-write (Write, WriteTrueTypePDF / WriteOpenTypeCFFPDF, cff.Font.Write), the file truncated to k bytes (ReaderAt and streaming), a ReaderAt failing for every access touching offset >= k (with and without partial data) and a stream failing after k bytes. Oracle: error iff the fault was hit, byte count == bytes the destination accepted, no panic.",
+         "Fault model: permanent failure from offset k; io.Writer/io.ReaderAt contracts are respected by the injected devices. Corpus fonts are small (1-2 kB) except Go Regular.",
+         "DESIGN.md 4/C18"),
 }
 checks = []
 na = []
